@@ -541,6 +541,9 @@ func run(c *runner.Ctx) {
 	}
 	// (1a'') values of self-referential types (type T []T, type P *P, mutually recursive pairs): every entry point returns
 	selfRef(c, ents)
+	// (1a''') group rules over collections of maps; two validator objects alive at the same time (round 12)
+	groupCollections(c)
+	objectsAliveTogether(c)
 	// (1a') the same catalogue as the object a rule set is registered for (nil, typed nils, scalars, collections, ...):
 	// registering and then validating returns normally whatever the target object is
 	c.Space("values-as-rule-set-targets")
@@ -799,7 +802,7 @@ func main() {
 		Property:  "C13",
 		Technique: "bounded-exhaustive enumeration: value-shape catalogue x entry points; rule-text token sequences, all single-byte edits of 40 seed rules, all byte strings <=2; oracle = the call returns normally",
 		Rule: "(1) ~165 value shapes (nil, typed nil pointers, multi-level pointers, scalars, collections of structs/pointers with nil positions, non-string-keyed maps, interface-typed fields and elements, func/chan, nested collections, defined types over every accepted kind - named string/int/float/bool, named maps and slices, maps keyed by a named string; " +
-			"also as fields under required/exist) x 20 entry points, and the same catalogue as the target object of a rule set (SetRule(rm, target), NestedStructForRule({target: rm}), 5 call forms), the struct entry points additionally with the struct-type cache (LRU(1) behind a wrapper, a 7-call history per case) answering every / every 2nd / every 3rd Load with a miss; (2) every sequence of <=n tokens over 34 rule names + 14 syntax tokens, every single-byte substitution (256 values), insertion and deletion of 40 seed rules, every byte string of length<=2, " +
+			"also as fields under required/exist) x 20 entry points, and the same catalogue as the target object of a rule set (SetRule(rm, target), NestedStructForRule({target: rm}), 5 call forms), the struct entry points additionally with the struct-type cache (LRU(1) behind a wrapper, a 7-call history per case) answering every / every 2nd / every 3rd Load with a miss; (1''') every slice of <=3 maps over an 8-map menu (group keys present / empty / partly or wholly missing, empty and nil maps) x 5 rule sets with either / botheq / required x 7 call forms (Map, MapFn, pointer, array, twice, slice of pointers, VMap object), and two validator objects (VVar / VStruct / VMap / VUrl, all 16 pairs) alive at the same time after 0..2 ordinary calls, their new / configure / validate steps in all 20 interleavings; (2) every sequence of <=n tokens over 34 rule names + 14 syntax tokens, every single-byte substitution (256 values), insertion and deletion of 40 seed rules, every byte string of length<=2, " +
 			"argument strings <=4 over 10 syntax symbols for table-indexed rules; each through 16 callers (Var/Struct/Map/Url on string,int,float,slice values + splitter/parser/extractor); transitions = calls; non-trivial = value-shape cases",
 		Assumptions: []string{"excluded by the statement: cyclic graphs, panicking user callbacks, re-use of a consumed validator object; an unhashable key of NestedStructForRule's rule map is a Go-level misuse of that argument"},
 		Run:         run,
